@@ -44,7 +44,14 @@ func symCfg() vcfg {
 		c.ifs = sizes[vrt.Choose("ifs", len(sizes))]
 		c.pfs = sizes[vrt.Choose("pfs", len(sizes))]
 	}
-	c.immutable = vrt.Bool("immutable")
+	switch vrt.Param("immutable", 2) {
+	case 0:
+		c.immutable = false
+	case 1:
+		c.immutable = true
+	default:
+		c.immutable = vrt.Bool("immutable")
+	}
 	return c
 }
 
